@@ -31,9 +31,10 @@ VARIABLES l, mode, scn, nviol,
           mbad,                \* monitor: a merge inconsistent with the children was recorded
           mpc, mat,            \* monitor: per thread, where it was last recorded (pc, role)
           movr,                \* monitor: a merge was recorded inside another update's compute-assign window
+          mnop,                \* monitor: an update was recorded ending below the root without entering the parent
           mlast                \* monitor: last value the adapter received, per kind
 
-tvars == <<l, mode, scn, nviol, mkind, mcar, msrc, mbad, mpc, mat, movr, mlast>>
+tvars == <<l, mode, scn, nviol, mkind, mcar, msrc, mbad, mpc, mat, movr, mnop, mlast>>
 allvars == <<vars, tvars>>
 
 Line == Trace[l]
@@ -53,15 +54,25 @@ BadStatusNodes(ct) == {n \in Nodes : ct[n] # FoldStatus(ct, n)}
 AsIsExplains(cs) == \A n \in Nodes : cs[n] = FoldStateAsIs(cs, n)
 Min(S) == CHOOSE x \in S : \A y \in S : x <= y
 
+\* some role reports the product of its children (it is right given them) while its parent does not
+\* report the product of ITS children: the parent was not told
+StaleAncestorS(cs) == \E n \in Aggs : Parent(n) # 0 /\ cs[n] = AggState(cs, n) /\ cs[Parent(n)] # AggState(cs, Parent(n))
+StaleAncestorT(ct) == \E n \in Aggs : Parent(n) # 0 /\ ct[n] = AggStatus(ct, n) /\ ct[Parent(n)] # AggStatus(ct, Parent(n))
+
 Class(cs, free, nthreads) ==
   IF AsIsExplains(cs) THEN "aggregator-without-critical-descendant"
   ELSE IF free THEN (IF nthreads > 1 THEN "free-concurrent" ELSE "other")
   ELSE IF movr THEN "non-atomic-merge"
+  ELSE IF mnop THEN "update-not-propagated"
   ELSE IF mbad THEN "stale-carried-value"
   ELSE "other"
-ClassT(free, nthreads) ==
-  IF free THEN (IF nthreads > 1 THEN "free-concurrent" ELSE "other")
+\* (status: with the statuses the free-running runs send no known deviation exists - nothing may be
+\* attributed to the open free-run findings)
+ClassT(ct, free, nthreads) ==
+  IF free THEN (IF StaleAncestorT(ct) THEN "update-not-propagated"
+                ELSE IF nthreads > 1 THEN "free-concurrent-status" ELSE "other")
   ELSE IF movr THEN "non-atomic-merge"
+  ELSE IF mnop THEN "update-not-propagated"
   ELSE IF mbad THEN "stale-carried-value" ELSE "other"
 
 CritErrorIn(cs) == \E x \in CritLeavesUnder(Root) : cs[x] = "ERROR"
@@ -77,16 +88,17 @@ QuiescentChecks(cs, ct, free, nthreads) ==
                <<"state", Class(cs, free, nthreads), Min(bs), cs[Min(bs)], FoldState(cs, Min(bs)), cs>>)
       + Soft("FoldInv", bt = {},
              IF bt = {} THEN <<>> ELSE
-               <<"status", ClassT(free, nthreads), Min(bt), ct[Min(bt)], FoldStatus(ct, Min(bt)), ct>>)
+               <<"status", ClassT(ct, free, nthreads), Min(bt), ct[Min(bt)], FoldStatus(ct, Min(bt)), ct>>)
       + Soft("ErrorNotLost", CritErrorIn(cs) => cs[Root] = "ERROR", <<"state", Class(cs, free, nthreads), cs>>)
       + Soft("ErrorNotInvented", cs[Root] = "ERROR" => CritErrorIn(cs), <<"state", Class(cs, free, nthreads), cs>>)
 
 (* ---------------- model step named by the line ---------------- *)
-IsStep == Line.ev \in {"Begin", "MergeEnter", "MergeUnblock", "MergeAssign", "ReadCache", "Deliver"}
+IsStep == Line.ev \in {"Begin", "Sample", "MergeEnter", "MergeUnblock", "MergeAssign", "ReadCache", "Deliver"}
 
 ModelAct ==
   LET a == Line.ev IN
   CASE a = "Begin" -> Begin(Line.t, Line.leaf, Line.kind, Line.v)
+    [] a = "Sample" -> Sample(Line.t)
     [] a = "MergeEnter" -> MergeEnter(Line.t)
     [] a = "MergeUnblock" -> MergeUnblock(Line.t)
     [] a = "MergeAssign" -> MergeAssign(Line.t)
@@ -103,6 +115,8 @@ ObsMatchNext ==
   /\ thr'[Line.t].pc = Line.pc
   /\ Line.pc # "idle" => thr'[Line.t].at = Line.at
   /\ Line.pc = "call" => thr'[Line.t].carried = Line.carried
+  \* at role.sampled the hook reports the old value read before the merge
+  /\ Line.pc = "sampled" => thr'[Line.t].old = Line.carried
   \* at merge.computed the hook reports the value about to be assigned
   /\ Line.pc = "computed" => thr'[Line.t].newv = Line.carried
   \* at role.merged the hook reports the cache of the role just merged ("-": the thread's arrival at
@@ -133,6 +147,11 @@ BadMerge ==
      IN IF mkind[Line.t] = "state"
           THEN newv # AggState(Line.cs, Line.at) /\ mcar[Line.t] # Line.cs[msrc[Line.t]]
           ELSE newv # AggStatus(Line.ct, Line.at) /\ mcar[Line.t] # Line.ct[msrc[Line.t]]
+\* an update that had merged into a role below the root came to its end instead of entering the parent:
+\* the role's value was not passed up
+NotPropagated ==
+  /\ Line.ev = "ReadCache" /\ Line.ok /\ Line.pc = "idle" /\ Line.t \in TIds
+  /\ mat[Line.t] \in Nodes /\ Parent(mat[Line.t]) # 0
 \* a thread got through the merge of a role while another update of the same kind was recorded between
 \* computing and assigning in that very role: the merge is not atomic (the role's lock is not held)
 Overrun ==
@@ -151,9 +170,10 @@ MonitorStep ==
   /\ msrc' = IF tracked /\ Line.ev = "Begin" THEN [msrc EXCEPT ![t] = Line.leaf]
              ELSE IF tracked /\ Line.ev = "ReadCache" THEN [msrc EXCEPT ![t] = mat[t]] ELSE msrc
   /\ mpc' = IF tracked THEN [mpc EXCEPT ![t] = Line.pc] ELSE mpc
-  /\ mat' = IF tracked /\ Line.pc \in {"call", "blocked", "computed", "merged"} THEN [mat EXCEPT ![t] = Line.at] ELSE mat
+  /\ mat' = IF tracked /\ Line.pc \in {"call", "sampled", "blocked", "computed", "merged"} THEN [mat EXCEPT ![t] = Line.at] ELSE mat
   /\ mbad' = (mbad \/ BadMerge)
   /\ movr' = (movr \/ Overrun)
+  /\ mnop' = (mnop \/ NotPropagated)
   /\ mlast' = newlast
   /\ nviol' = nviol
        + (IF Line.ev = "Begin" /\ SizeOK(Line.cs) /\ Line.leaf \in Nodes
@@ -190,7 +210,7 @@ TAbandon ==
   /\ l <= Len(Trace) /\ Line.ev = "Abandon"
   /\ IF mode = "ok" THEN PrintT(<<"DRIFT", scn, l, <<"Abandon", Line.a, Line.why>> >>) ELSE TRUE
   /\ mode' = "lost"
-  /\ l' = l + 1 /\ UNCHANGED <<vars, scn, nviol, mkind, mcar, msrc, mbad, mpc, mat, movr, mlast>>
+  /\ l' = l + 1 /\ UNCHANGED <<vars, scn, nviol, mkind, mcar, msrc, mbad, mpc, mat, movr, mnop, mlast>>
 
 \* end of a scheduled run: everything still in flight was released and ran to completion on its
 \* own; the tree is quiescent. Judged by the monitor; strict only when the model is quiescent too.
@@ -209,7 +229,7 @@ TSettle ==
   /\ IF mode = "ok" /\ Quiescent /\ ~(Line.ok /\ Line.inflight = 0 /\ Line.cs = cS /\ Line.ct = cT /\ Line.recv = <<>>)
        THEN PrintT(<<"DRIFT", scn, l, "Settle">>) ELSE TRUE
   /\ mode' = "lost"
-  /\ l' = l + 1 /\ UNCHANGED <<vars, scn, mkind, mcar, msrc, mbad, mpc, mat, movr>>
+  /\ l' = l + 1 /\ UNCHANGED <<vars, scn, mkind, mcar, msrc, mbad, mpc, mat, movr, mnop>>
 
 \* a new run: the model starts from RoleTree!Init for the recorded shape
 TReset ==
@@ -230,7 +250,7 @@ TReset ==
                  ELSE PrintT(<<"DRIFT", Line.scn, l, "Reset: tree not loaded or unknown shape">>)
   /\ mkind' = [t \in TIds |-> "-"] /\ mcar' = [t \in TIds |-> "-"] /\ msrc' = [t \in TIds |-> 0]
   /\ mbad' = FALSE /\ mlast' = [state |-> "none", status |-> "none"]
-  /\ mpc' = [t \in TIds |-> "idle"] /\ mat' = [t \in TIds |-> 0] /\ movr' = FALSE
+  /\ mpc' = [t \in TIds |-> "idle"] /\ mat' = [t \in TIds |-> 0] /\ movr' = FALSE /\ mnop' = FALSE
   /\ lock' = [k \in {"state", "status"} |->
                [n \in 1..Len(Shapes[IF Line.shape \in DOMAIN Shapes THEN Line.shape ELSE "S01"].parent) |-> 0]]
   /\ l' = l + 1 /\ UNCHANGED nviol
@@ -247,7 +267,7 @@ TLoaded ==
        THEN UNCHANGED mode
        ELSE PrintT(<<"DRIFT", scn, l, "Loaded: structure or initial caches differ from the model">>) /\ mode' = "lost"
   /\ nviol' = nviol + (IF StructureOK THEN QuiescentChecks(Line.cs, Line.ct, FALSE, 1) ELSE 0)
-  /\ l' = l + 1 /\ UNCHANGED <<vars, scn, mkind, mcar, msrc, mbad, mpc, mat, movr, mlast>>
+  /\ l' = l + 1 /\ UNCHANGED <<vars, scn, mkind, mcar, msrc, mbad, mpc, mat, movr, mnop, mlast>>
 
 \* end of a free-running run
 TFreeEnd ==
@@ -264,7 +284,7 @@ TFreeEnd ==
   /\ (SizeOK(Line.cs) /\ SizeOK(Line.ct)) =>
         /\ Note("AdapterStale", Line.lasts \in {"none", Line.cs[Root]}, <<"state", Line.lasts, Line.cs[Root]>>)
         /\ Note("AdapterStale", Line.lastt \in {"none", Line.ct[Root]}, <<"status", Line.lastt, Line.ct[Root]>>)
-  /\ l' = l + 1 /\ UNCHANGED <<vars, mode, scn, mkind, mcar, msrc, mbad, mpc, mat, movr, mlast>>
+  /\ l' = l + 1 /\ UNCHANGED <<vars, mode, scn, mkind, mcar, msrc, mbad, mpc, mat, movr, mnop, mlast>>
 
 \* the real product tables, pair by pair
 TProd ==
@@ -273,14 +293,14 @@ TProd ==
        + Soft("ProductTable",
               IF Line.ev = "ProdS" THEN XS(Line.a, Line.b) = Line.r ELSE XT(Line.a, Line.b) = Line.r,
               <<Line.ev, Line.a, Line.b, Line.r>>)
-  /\ l' = l + 1 /\ UNCHANGED <<vars, mode, scn, mkind, mcar, msrc, mbad, mpc, mat, movr, mlast>>
+  /\ l' = l + 1 /\ UNCHANGED <<vars, mode, scn, mkind, mcar, msrc, mbad, mpc, mat, movr, mnop, mlast>>
 
 TraceInit ==
   /\ Init
   /\ l = 1 /\ mode = "lost" /\ scn = -1 /\ nviol = 0
   /\ mkind = [t \in TIds |-> "-"] /\ mcar = [t \in TIds |-> "-"] /\ msrc = [t \in TIds |-> 0]
   /\ mbad = FALSE /\ mlast = [state |-> "none", status |-> "none"]
-  /\ mpc = [t \in TIds |-> "idle"] /\ mat = [t \in TIds |-> 0] /\ movr = FALSE
+  /\ mpc = [t \in TIds |-> "idle"] /\ mat = [t \in TIds |-> 0] /\ movr = FALSE /\ mnop = FALSE
 
 TraceNext == TStepOk \/ TStepDrift \/ TStepLost \/ TReset \/ TLoaded \/ TFreeEnd \/ TProd \/ TAbandon \/ TSettle
 
